@@ -83,7 +83,7 @@ func runC16(r *rt.Run, tier string) {
 		const nAppend, nEIO = 3, 2
 		total := nBytes + nDecoy + 2 + 2 + nAppend + nEIO
 		fp := faultIndex(r, total, func() int {
-			switch t.Weighted([]int{5, 3, 1, 1, 1, 1}, "fault.kind") {
+			switch t.Weighted([]int{5, 3, 1, 1, 1, 3}, "fault.kind") {
 			case 4:
 				return nBytes + nDecoy + 4 + t.Draw(nAppend, "fault.append")
 			case 5:
@@ -323,10 +323,14 @@ func runC16(r *rt.Run, tier string) {
 		disk.DrawProfile()
 		disk.MaxCalls = 4*len(img) + 8000
 		if eioLo >= 0 {
-			if t.Bool(1, 2, "fault.eiotransient") {
-				disk.FailOnceAtCall(1 + t.Draw(40, "fault.eiocall"))
-			} else {
+			switch t.Draw(3, "fault.eiotransient") {
+			case 0:
 				disk.FailRange(eioLo, eioHi)
+			case 1: // the range fails once: the read delivers the bytes before it plus EIO, a retry succeeds
+				disk.FailRange(eioLo, eioHi)
+				disk.RangeOnce = true
+			case 2:
+				disk.FailOnceAtCall(1 + t.Draw(40, "fault.eiocall"))
 			}
 		}
 		return disk
